@@ -17,7 +17,7 @@ func compileFunction(vm *r.VM, node *syntax.FunctionDeclareStmt) *value.Function
 		return evalExecBlock(vm, node.ExecBlock, params)
 	}
 
-	return value.NewFunction(mainLogicHandler)
+	return value.NewFunction(mainLogicHandler).SetModule(vm.GetCurrentModule())
 }
 
 // （显示：A、B、C），得到D
@@ -87,6 +87,11 @@ func execDirectFunction(vm *r.VM, funcName *r.IDName, params []r.Element) (r.Ele
 	elem, module, err := vm.FindElementWithModule(funcName)
 	if err != nil {
 		return nil, err
+	}
+	// a method runs in the module it was defined in, whatever the name it is called by
+	// (a variable holding an imported method, an input of another module's method)
+	if fn, ok := elem.(*value.Function); ok && fn.GetModule() != nil {
+		module = fn.GetModule()
 	}
 	// pushCallFrame
 	fnCallFrame := r.NewFunctionCallFrame(module, nil)
